@@ -1018,9 +1018,24 @@ def c12a(F, R):
             if CH:
                 break
         ored = set()
+        # locals that are themselves OR-ed into the flag (`let mut x = setter(); x |= setter(); changed |= x;`)
+        carriers = {CH}
+        grew = True
+        while grew:
+            grew = False
+            for a in walk(f["hir"]["value"]):
+                if a.get("k") == "AssignOp" and a["op"] == "BitOrAssign" and ekey(a["l"]) in carriers:
+                    r = peel(a["r"])
+                    if r.get("k") == "Path" and r.get("res_kind") == "Local" and r["res"] not in carriers:
+                        carriers.add(r["res"])
+                        grew = True
         for a in walk(f["hir"]["value"]):
-            if a.get("k") == "AssignOp" and a["op"] == "BitOrAssign" and ekey(a["l"]) == CH:
+            if a.get("k") == "AssignOp" and a["op"] == "BitOrAssign" and ekey(a["l"]) in carriers:
                 r = peel(a["r"])
+                if r.get("k") in ("MethodCall", "Call") and callee_of(r) in setters:
+                    ored.add(id(r))
+            if a.get("k") == "Let" and a["pat"].get("k") == "PBinding" and a["pat"]["name"] in carriers - {CH} and a.get("init"):
+                r = peel(a["init"])
                 if r.get("k") in ("MethodCall", "Call") and callee_of(r) in setters:
                     ored.add(id(r))
         cnt = {}
@@ -1717,3 +1732,48 @@ def c11f(F, R):
         R.ok("markup", detail="pipeline: " + " -> ".join(names))
     else:
         R.bad("markup", f"FunctionMarkupPass runs before the first `AvailableValuePass -> EcallTerminationPass` round ({' -> '.join(names)}): it walks the fall-through edge after a known exit ecall, so a function that contains `li a7, 93; ecall` swallows the code (and the next function) behind it", f["sp"])
+
+
+@rule("C12", "C12.g.every-sweep-evaluates-every-node", floor=2)
+def c12g(F, R):
+    """inside the `while changed` sweep of each dataflow pass the per-node body always reaches the statements that publish the node's out-facts: no `continue`/`break` skips a node whose ins did not change (a transfer function that also reads the node's own previous outs would stop one evaluation short and a later run would still change facts)"""
+    setters = fact_setters(F)
+    outs = {p for p, fld in setters.items() if fld.endswith("_out") or fld in ("live_in", "u_def")}
+    for f in (_avpass_run(F), _livepass_run(F)):
+        name = "AvailableValuePass" if "AvailableValuePass" in f["path"] else ("LivenessPass" if "LivenessPass" in f["path"] else short(root_fn(f["path"])))
+        for fl in for_loops(f["hir"]["value"]):
+            pubs = [n for n in walk(fl["body"], pats=False) if n.get("k") in ("MethodCall", "Call") and callee_of(n) in outs]
+            if not pubs:
+                continue
+            body = peel(fl["body"])
+            stmts = body.get("stmts") or []
+
+            def top(node):
+                for i, st in enumerate(stmts):
+                    if any(y is node for y in walk(st, pats=False)):
+                        return i
+                return len(stmts)
+            last_pub = max(top(p) for p in pubs)
+            skips = []
+            for i, st in enumerate(stmts[:last_pub]):
+                for n in walk(st, pats=False):
+                    if n.get("k") in ("Continue", "Break", "Ret"):
+                        # `?` desugars to a return: an error aborts the whole analysis, it does not skip a node
+                        skips.append(n)
+            tryrets = set()
+            for st in stmts[:last_pub]:
+                for m in walk(st, pats=False):
+                    if m.get("k") == "Match" and m.get("src") == "TryDesugar":
+                        tryrets |= {id(n) for n in walk(m, pats=False) if n.get("k") == "Ret"}
+                    if m.get("k") == "Closure":
+                        tryrets |= {id(n) for n in walk(m, pats=False) if n.get("k") in ("Ret", "Break", "Continue")}
+            # loops nested inside a statement have their own break/continue
+            for st in stmts[:last_pub]:
+                for m in walk(st, pats=False):
+                    if m.get("k") == "Loop" or (m.get("k") == "Match" and m.get("src") == "ForLoopDesugar"):
+                        tryrets |= {id(n) for n in walk(m, pats=False) if n.get("k") in ("Break", "Continue")}
+            skips = [n for n in skips if id(n) not in tryrets]
+            if skips:
+                R.bad(f"{name}|skip", f"{name}: a `{skips[0]['k'].lower()}` leaves the per-node body before the node's out-facts are recomputed: a node is not re-evaluated in this sweep (e.g. because its ins did not change), although its transfer function also depends on state other than its ins", loc(skips[0]))
+            else:
+                R.ok(f"{name}", detail=f"{name}: all {len(stmts)} statements of the per-node body run for every node in every sweep ({len(pubs)} out-fact setters)")
